@@ -671,6 +671,9 @@ def run(prog, rep, tier):
             # only the release side matters here: the late-cancel path
             # (known finding K2 of C07) hands on twice but releases once
             c07.r07_1(prog, rep, rid='R03.4', pub_only=True)
+            # releases racing with cancellation: both contenders release only
+            # after the locked test-and-remove
+            c07.r07_2(prog, rep, rid='R07.2')
     except ImportError:
         pass
 
